@@ -68,7 +68,8 @@ let event_of_token (t : string) : gevent option * (int * cause) option =
       (Some (GvPool (nat_of_int pi, PvPre o')), f)
   | [ p; w ] when String.length w > 1 && w.[0] = '!' ->
       (None, Some (int_of_string p, cause_of (String.sub w 1 (String.length w - 1))))
-  | [ _; "src" ] -> (None, None)
+  | [ _; "src" ] | [ _; "wu" ] -> (None, None)
+  | _ :: "rfl" :: _ -> (None, None)
   | [ p; "sf" ] -> (Some (GvPool (nat_of_int (int_of_string p), PvSchedFin)), None)
   | [ p; "fc" ] -> (Some (GvPool (nat_of_int (int_of_string p), PvFrontCtx)), None)
   | [ p; "fz" ] -> (Some (GvPool (nat_of_int (int_of_string p), PvFrontClosed)), None)
@@ -114,6 +115,42 @@ let gj_of_pool (spec : string) : gj option =
         Some { g_cf = { j_limit = nat_of_int (int_of_string limit); j_passes = nat_of_int (int_of_string passes); j_coe = (coe = "1") };
                g_file = gj_file k m po; g_unlimited_schedule = (f.(3) = "-1"); g_instances = int_of_string f.(0) }
     | _ -> None
+
+(* ---- pools whose gun is the real grpc gun: gw-<ver><sc>[p]-<dial>-<list>-<svc>.<svc>... ---- *)
+type gw = { w_rf : reflsrv; w_cp : cpconf }
+
+let code_of_outcome (o : string) : int option =
+  if String.length o > 1 && (o.[0] = 'e' || o.[0] = 'r') then int_of_string_opt (String.sub o 1 (String.length o - 1)) else None
+
+let gw_of_pool (spec : string) : gw option =
+  let f = pool_fields spec in
+  if Array.length f < 8 then None
+  else match String.split_on_char '-' f.(4) with
+    | [ "gw"; versc; dial; lst; svcs ] ->
+        let sc = (let t = String.sub versc 1 (String.length versc - 1) in
+                  let t = if String.length t > 0 && t.[String.length t - 1] = 'p' then String.sub t 0 (String.length t - 1) else t in
+                  try int_of_string t with _ -> 0) in
+        let outcome o =
+          if String.length o >= 2 && String.sub o 0 2 = "ok" then gw_methods (nat_of_int (try int_of_string (String.sub o 2 (String.length o - 2)) with _ -> 0))
+          else if o = "nosym" then RsErr code_not_found           (* an answer without the service: the not-found class *)
+          else match code_of_outcome o with
+            | Some c -> RsErr (nat_of_int c)
+            | None -> RsErr (nat_of_int 2) in                      (* garbage / wrongtype: an error of another class *)
+        let outs = if svcs = "none" || svcs = "" then [] else List.map outcome (String.split_on_char '.' svcs) in
+        Some { w_rf = { rf_connect = (dial <> "dead");
+                        rf_list = (match code_of_outcome lst with Some c -> Some (nat_of_int c) | None -> None);
+                        rf_services = gw_services outs };
+               w_cp = { cp_enabled = (sc > 0); cp_number = nat_of_int (max 0 (sc - 1)) } }
+    | _ -> None
+
+let wcause_name = function
+  | WcConnect -> "f.conn" | WcList _ -> "f.list" | WcResolve (s, _) -> "f.res." ^ string_of_int (int_of_nat s)
+  | WcPoolNew | WcPoolConnect -> "f.pool"
+
+let table_name (t : (nat * nat) list) : string =
+  match List.sort_uniq compare (List.map (fun (s, m) -> (int_of_nat s, int_of_nat m)) t) with
+  | [] -> "none"
+  | l -> String.concat "+" (List.map (fun (s, m) -> Printf.sprintf "%d:%d" s m) l)
 
 let predict (c : string) (obs : string) : string * string * bool =
   match split_blank c with
@@ -189,6 +226,21 @@ let predict (c : string) (obs : string) : string * string * bool =
         match gj_pred p with Some (q, _) -> q | None -> if p < Array.length q_obs then q_obs.(p) else "-")) in
       let a_pred = String.concat "," (List.init npools (fun p ->
         match gj_pred p with Some (_, Some d) -> string_of_int d | _ -> if p < Array.length a_obs then a_obs.(p) else "-")) in
+      (* U / M: what the real grpc gun's WarmUp returned and the method table a bound gun got, predicted by the model
+         of the warm-up (Model/GrpcWarmUp.v, [warm_up tree_policy]) for every gw pool whose WarmUp was entered *)
+      let u_obs = obs_list "U" and m_obs = obs_list "M" in
+      let entered p = List.mem (Printf.sprintf "%d.wu" p) toks in
+      let gw_pred p = match gw_of_pool specs.(p) with
+        | Some w when entered p ->
+            (match warm_up tree_policy w.w_rf w.w_cp with
+             | WOk (t, _) -> Some ("nil", Some (table_name t))
+             | WFail cz -> Some (wcause_name cz, None))
+        | _ -> None in
+      let u_pred = String.concat "," (List.init npools (fun p ->
+        match gw_pred p with Some (u, _) -> u | None -> if p < Array.length u_obs then u_obs.(p) else "-")) in
+      let m_pred = String.concat "," (List.init npools (fun p ->
+        let o = if p < Array.length m_obs then m_obs.(p) else "-" in
+        match gw_pred p with Some (_, Some t) when o <> "-" -> t | Some (_, None) -> "-" | _ -> o)) in
       let describe (events, res) =
         match res with
         | None ->
@@ -197,9 +249,9 @@ let predict (c : string) (obs : string) : string * string * bool =
         | Some g ->
             let r = (match g.eng with None -> "hang" | Some er -> res_name er.er_res) in
             let k = (match outstanding_at_wait current cfg g0 events with Some k -> string_of_int (int_of_nat k) | None -> "-") in
-            (true, r, Printf.sprintf "R=%s W=%s G=%s K=%s N=%d Q=%s A=%s C=%d L=%d T=%s" r
+            (true, r, Printf.sprintf "R=%s W=%s G=%s K=%s N=%d Q=%s A=%s U=%s M=%s C=%d L=%d T=%s" r
               (field_of_bool (wait_returns g)) (field_of_bool (terminal g && not (any_panicked g)))
-              k (int_of_nat (total_comp_runs g)) q_pred a_pred
+              k (int_of_nat (total_comp_runs g)) q_pred a_pred u_pred m_pred
               (int_of_nat (total_created g)) (int_of_nat (total_closed g)) (String.concat "," toks)) in
       let results = List.map (fun k -> describe (run_candidate k)) candidates in
       let pred =
@@ -221,6 +273,18 @@ let predict (c : string) (obs : string) : string * string * bool =
                  Some (pi, CProv)
              | _ -> None)
         | _ -> None in
+      (* the real grpc gun's WarmUp was entered against an endpoint that, by the specification [gw_spec_fails], a warm-up
+         cannot succeed against (no connection, no list of services, a listed service whose descriptors are refused
+         with anything but NOT_FOUND): the warm-up of that pool failed *)
+      let wu_fail (t : string) : (int * cause) option =
+        match String.split_on_char '.' t with
+        | [ p; "wu" ] ->
+            let pi = int_of_string p in
+            (match (if pi < npools then gw_of_pool specs.(pi) else None) with
+             | Some w when gw_spec_fails w.w_rf -> Some (pi, CWarmUp)
+             | _ -> None)
+        | _ -> None in
+      let src_fail t = match src_fail t with Some f -> Some f | None -> wu_fail t in
       let fails = List.filter_map (fun (t, (_, f)) -> match f with Some _ -> f | None -> src_fail t) before in
       (* Engine.Run had received a nil result from every pool when it returned *)
       let has t = List.exists (fun (x, _) -> x = t) before in
@@ -248,6 +312,19 @@ let predict (c : string) (obs : string) : string * string * bool =
               let shot = (try int_of_string a_obs.(p) with _ -> -1) in
               if shot <> want then Some (p, shot, want) else None
           | _ -> None) (List.init npools (fun p -> p)) in
+      (* the warm-up as a component: what the real gun's WarmUp returned against what the specification says of the
+         endpoint -- it has to fail iff [gw_spec_fails], and the failure has to carry the FIRST thing that went wrong
+         ([gw_spec_cause]) *)
+      let bad_warm = List.find_map (fun p ->
+        match gw_of_pool specs.(p) with
+        | Some w when entered p && p < Array.length u_obs && u_obs.(p) <> "-" ->
+            let want = (match gw_spec_cause w.w_rf with Some cz -> wcause_name cz | None -> "nil") in
+            let got = u_obs.(p) in
+            if got = want then None
+            else if got = "nil" then Some (Printf.sprintf "BAD:outcome:warm-up-nil-despite-failure:grpc-gun pool=%d has-to-report=%s" p want)
+            else if want = "nil" then Some (Printf.sprintf "BAD:outcome:warm-up-failed-without-cause:grpc-gun pool=%d reported=%s" p got)
+            else Some (Printf.sprintf "BAD:outcome:warm-up-cause-not-the-first-failure:grpc-gun pool=%d reported=%s first=%s" p got want)
+        | _ -> None) (List.init npools (fun p -> p)) in
       let verdict =
         if kind = "guns" then begin
           if spec_guns_b o then "ok"
@@ -269,14 +346,18 @@ let predict (c : string) (obs : string) : string * string * bool =
                      (not sure_cancelled && spec_outcome_b fl false all_nil o.o_res)) then begin
           let cancelled = not sure_not_cancelled in
           let fs = String.concat "+" (List.sort_uniq compare (List.map (fun (_, c) -> cause_name c) fails)) in
-          let from_src = List.exists (fun (t, _) -> src_fail t <> None) before in
+          let from_wu = List.exists (fun (t, _) -> wu_fail t <> None) before in
+          let from_src = (not from_wu) && List.exists (fun (t, _) -> src_fail t <> None) before in
           match o.o_res with
           | RNil -> if not all_nil then "BAD:outcome:nil-before-natural-end"
                     else "BAD:outcome:nil-despite-failure:" ^ fs ^ (if from_src then ":grpcjson-provider-swallowed-a-broken-ammo-file" else "")
+                         ^ (if from_wu then ":grpc-gun-warm-up-swallowed-a-refused-reflection-request" else "")
           | RCtx -> "BAD:outcome:ctx-error-without-cancel"
           | RFail c -> if cancelled then "BAD:outcome:failure-returned-after-cancel:" ^ cause_name c
                        else "BAD:outcome:cause-not-among-failures:" ^ cause_name c ^ ":occurred=" ^ fs
         end
+        else if bad_warm <> None then
+          (match bad_warm with Some m -> m | None -> "ok")
         else if short_pool <> None then
           (match short_pool with
            | Some (p, shot, want) ->
